@@ -7,13 +7,16 @@ HERE = os.path.dirname(os.path.dirname(os.path.abspath(__file__)))
 
 def sig(path):
     out = []
+    fn = ''
     for l in open(path, errors='replace'):
+        if l.startswith('+++ '):
+            fn = l[4:].strip()
         if l.startswith(('+++', '---')) or not l.startswith(('+', '-')):
             continue
         body = l[1:].strip()
         if not body or body.startswith('#'):
             continue
-        out.append(l[0] + re.sub(r'\s+', ' ', body))
+        out.append(fn + ':' + l[0] + re.sub(r'\s+', ' ', body))
     return frozenset(out)
 
 
